@@ -325,6 +325,7 @@ def decide(pid, P, tier, seed, sc, ov, r, fn_ranges, lt, t0, replay):
         failed_units = [u for u, v in units.items() if not v["success"]]
         own = [f for f in failures if pid in f.props and f not in rlimit_fail]
         known = load_known()
+        known_failures = []
         for f in own:
             hit = None
             for k in known:
@@ -332,8 +333,17 @@ def decide(pid, P, tier, seed, sc, ov, r, fn_ranges, lt, t0, replay):
                     hit = k
             if hit:
                 log(f"KNOWN-FINDING: property={pid} {hit['site']} {hit['obligation']} :: {hit['text']}")
+                known_failures.append(f)
             else:
                 new_own.append(f)
+        # a unit whose only failed obligations are listed findings does not break the chain
+        def unit_of(f):
+            return "xml_schema_generator::" + str(f.site_file)[:-3].replace("/", "::") + "::" + str(f.site_fn).split(" for ")[-1]
+        excused = {unit_of(f) for f in known_failures}
+        for f in failures:
+            if f not in known_failures and unit_of(f) in excused:
+                excused.discard(unit_of(f))
+        failed_units = [u for u in failed_units if u not in excused]
         lost_fns = {l.split(":")[1] for l in ov.lost if l.count(":") >= 2}
         if new_own and all(f.site_fn in lost_fns for f in new_own):
             status = "undecided"
